@@ -131,10 +131,12 @@ def long_transforms(ctx):
     npr = np.random.RandomState(ctx.seed + 1919)
     for L, n, fs in ((2000, 2**18, 1000.0), (2000, 2**18 + 1, 1000.0), (1500, 200001, 250.0), (300001, None, 500.0), (4000, 300000, 30000.0),
                      # frequency step below 1e-6 Hz (slow signals, long zero padding): no absolute margin is small enough
-                     (100, 2**21, 1.0), (20000, None, 0.01), (20001, None, 0.01)):
+                     (100, 2**21, 1.0), (20000, None, 0.01), (20001, None, 0.01),
+                     # a sampling rate given as a NumPy 32-bit integer (read from a file header): fs * n exceeds 2**31
+                     (80000, None, np.int32(30000))):
         x = npr.randn(L)
         sig = nap.Tsd(np.arange(L) / fs, x)
-        inp = dict(level="long-transform", length=L, n=n, fs=fs)
+        inp = dict(level="long-transform", length=L, n=n, fs=float(fs), fs_type=type(fs).__name__)
         ctx.case(("long", L, n, fs), inp)
         kw = {} if n is None else dict(n=n)
         nn = L if n is None else n
